@@ -5,6 +5,7 @@ import (
 	"flag"
 	"fmt"
 	"os"
+	"time"
 
 	"verif/harness/internal/muxdrv"
 	"verif/harness/internal/trace"
@@ -37,6 +38,45 @@ func init() {
 			}
 		}
 		fmt.Printf("scripts=%d lines=%d\n", len(scs), w.N)
+		return w.Close()
+	})
+}
+
+func init() {
+	register("mux-stress", func(args []string) error {
+		fs := flag.NewFlagSet("mux-stress", flag.ExitOnError)
+		out := fs.String("out", "trace.ndjson", "trace output")
+		secs := fs.Float64("secs", 2, "seconds per configuration")
+		readers := fs.Int("readers", 8, "reader goroutines")
+		seed := fs.Int64("seed", 1, "seed")
+		which := fs.String("cfg", "all", "variant filter")
+		fs.Parse(args)
+		w, err := trace.Create(*out)
+		if err != nil {
+			return err
+		}
+		i := 0
+		for _, v := range []string{"ll", "fmp4", "mpegts"} {
+			if *which != "all" && *which != v {
+				continue
+			}
+			for _, disk := range []bool{false, true} {
+				tracks := []muxdrv.TrackSpec{{Codec: "h264"}, {Codec: "aac", Rate: 48000}}
+				if v == "mpegts" {
+					tracks = []muxdrv.TrackSpec{{Codec: "h264"}, {Codec: "aac", Rate: 44100}}
+				}
+				sc := 3
+				if v == "ll" {
+					sc = 7
+				}
+				cfg := muxdrv.Config{Variant: v, Tracks: tracks, SegCount: sc, SegMinMs: 200, PartMinMs: 100, MaxSize: 1000000, Disk: disk}
+				if err := muxdrv.RunStress(w, i, cfg, *readers, time.Duration(*secs*float64(time.Second)), *seed+int64(i)); err != nil {
+					return err
+				}
+				i++
+			}
+		}
+		fmt.Printf("configs=%d lines=%d\n", i, w.N)
 		return w.Close()
 	})
 }
